@@ -328,8 +328,8 @@ Exec(s0) ==
     LET p == s0.pc IN
     IF AtEnd(s0, p)
     THEN IF s0.resume # None
-         THEN [s0 EXCEPT !.run = FALSE, !.err = 19, !.inh = FALSE, !.stat = [k |-> "error", code |-> 19, line |-> -1]]
-         ELSE [s0 EXCEPT !.run = FALSE, !.stat = [k |-> "end", code |-> 0, line |-> 0]]
+         THEN [s0 EXCEPT !.run = FALSE, !.out = <<>>, !.err = 19, !.inh = FALSE, !.stat = [k |-> "error", code |-> 19, line |-> -1]]
+         ELSE [s0 EXCEPT !.run = FALSE, !.out = <<>>, !.stat = [k |-> "end", code |-> 0, line |-> 0]]
     ELSE
     LET st == StmtAt(s0, p)
         s  == [s0 EXCEPT !.cur = p, !.out = <<>>] IN
